@@ -578,6 +578,9 @@ class ProcessingItem(ProcessingItemBase):
             )
         if self.detection_item_condition_negation:
             detection_item_cond_result = not detection_item_cond_result
+        detection_item_cond_result = (
+            not self.detection_item_conditions or detection_item_cond_result
+        )
 
         if self.field_name_condition_expression is not None:  # field name condition expression
             field_name_cond_result = self.field_name_condition_expression.match_detection_item(
@@ -598,6 +601,7 @@ class ProcessingItem(ProcessingItemBase):
             )
         if self.field_name_condition_negation:
             field_name_cond_result = not field_name_cond_result
+        field_name_cond_result = not self.field_name_conditions or field_name_cond_result
 
         return detection_item_cond_result and field_name_cond_result
 
@@ -621,7 +625,7 @@ class ProcessingItem(ProcessingItemBase):
         if self.field_name_condition_negation:
             field_name_cond_result = not field_name_cond_result
 
-        return field_name_cond_result
+        return not self.field_name_conditions or field_name_cond_result
 
     def match_field_in_value(self, value: SigmaType) -> bool:
         """
@@ -645,7 +649,7 @@ class ProcessingItem(ProcessingItemBase):
             if self.field_name_condition_negation:
                 field_name_cond_result = not field_name_cond_result
 
-            return field_name_cond_result
+            return not self.field_name_conditions or field_name_cond_result
         else:
             return False
 
